@@ -395,7 +395,17 @@ func c07Check(cs *vrt.Case, r *vrt.Rng, t c07Tuple) {
 				cs.Evals += int64(judged)
 				return
 			}
-			cs.Violate("C07|"+t.class()+"|wrong-value", fmt.Sprintf("%s: operands %v give %s, exact result mod 2^%d is %s", t, ops, outs[k].Text(10), t.wr, want.Text(10)),
+			key := "C07|" + t.class() + "|wrong-value"
+			if t.spec.name == "Subtractor" && t.wr > max(t.w[0], t.w[1])+1 {
+				// the known finding is exactly this: the difference is right in
+				// its low max+1 bits and the bits above are zero instead of the
+				// sign. Any other wrong value of these shapes is not that finding.
+				low := new(big.Int).Sub(new(big.Int).Lsh(big.NewInt(1), uint(max(t.w[0], t.w[1])+1)), big.NewInt(1))
+				if new(big.Int).And(want, low).Cmp(outs[k]) != 0 {
+					key += "|not-the-missing-sign-fill"
+				}
+			}
+			cs.Violate(key, fmt.Sprintf("%s: operands %v give %s, exact result mod 2^%d is %s", t, ops, outs[k].Text(10), t.wr, want.Text(10)),
 				map[string]any{"tuple": t.String(), "operands": ops, "got": outs[k].Text(10), "want": want.Text(10)})
 			cs.Evals += int64(judged)
 			return
